@@ -388,7 +388,7 @@ impl Property for C08 {
     fn cases(&self, tier: Tier) -> usize {
         match tier {
             Tier::Quick => 8_000,
-            Tier::Thorough => 120_000,
+            Tier::Thorough => 150_000,
         }
     }
     fn tape_max(&self) -> usize {
